@@ -37,6 +37,8 @@ SEEDS = [
     ('@namespace p "u";p|a{x:y}', '@namespace q "u";@namespace p "v";'),
     ('@namespace "u";a{x:y}', '@namespace q "u";@namespace p "v";'),
     ('', '@namespace q "u";@namespace p "v";'),
+    # rules in front of the @namespace rules: positions among @namespace rules and positions in cssRules differ
+    ('@charset "utf-8";/*c*/@namespace q "v";@namespace p "u";p|a{x:y}', '@namespace q "u";@namespace p "v";'),
 ]
 TEXTS = ['', '@namespace p "u";@namespace q "u";q|a{x:y}', '@namespace p "u";q|a{x:y}', '@namespace p "u";@namespace p "v";p|a{x:y}']
 DETACHED = [('p|a', {'p': 'u'}), ('p|a', {'p': 'v'}), ('a', {}), ('a', {'': 'u'}), ('*|a', {})]
@@ -285,6 +287,13 @@ def _only_unprefixed_differ(p1, p2):
 
 
 SELECTOR_EDITS = ('seltext', 'selapp', 'insrule', 'instext', 'text')
+NAMESPACE_EDITS = ('nsset', 'nsdel', 'insns', 'addns', 'delns', 'prefix')
+
+
+def _others(s):
+    """the rules a namespace edit must leave alone: everything but @namespace rules (style rules by position only: their
+    prefixes may be rewritten)"""
+    return [(r.typeString, None if r.type == R.STYLE_RULE else r.cssText) for r in s.cssRules if r.type != R.NAMESPACE_RULE]
 
 
 def step(res, hist, op, tier):
@@ -303,9 +312,10 @@ def step(res, hist, op, tier):
                         inherited.add((which, 'C15.reparse'))
                 except Exception:
                     inherited.add((which, 'C15.reparse'))
-            used_before = {u for rp in before[0][2] for sel in rp for (_t, u, _n) in sel}
+            others_before = _others(a)
             out = apply(a, b, op)
             after = observe(a, b)
+            others_after = _others(a)
     except guard.Timeout:
         res.violation('C15.terminates', f'timeout|{op[0]}', case, 'answer', 'timeout')
         return None
@@ -336,6 +346,23 @@ def step(res, hist, op, tier):
         # a selector using an undeclared prefix is rejected
         if op[0] in ('seltext', 'selapp', 'instext'):
             res.clauses['C15.undeclared-prefix'] += 1
+        # the effect of a mapping edit is the one asked for, and it touches @namespace rules only
+        if op[0] in NAMESPACE_EDITS:
+            res.clauses['C15.edit-effect'] += 1
+            if others_after != others_before:
+                res.violation('C15.edit-effect', f'{op[0]}|other-rules-changed', case, others_before, others_after, size=size)
+            ns0, ns1 = before[0][1], after[0][1]
+            if not inherited and isinstance(ns0, tuple) and isinstance(ns1, tuple) and 'ERR' not in ns0[:1] and 'ERR' not in ns1[:1]:
+                ns0, ns1 = dict(ns0), dict(ns1)
+                if op[0] == 'nsdel' and ns1 != {k: v for k, v in ns0.items() if k != op[1]}:
+                    res.violation('C15.edit-effect', 'nsdel|mapping-is-not-the-old-one-without-the-prefix', case, {k: v for k, v in ns0.items() if k != op[1]}, ns1, size=size)
+                if op[0] == 'nsset' and ns1.get(op[1]) != op[2]:
+                    res.violation('C15.edit-effect', 'nsset|prefix-not-bound-to-the-uri', case, {op[1]: op[2]}, ns1, size=size)
+                if op[0] == 'delns':
+                    gone = before[0][3][op[1]]
+                    want = ref_ns([r for i, r in enumerate(before[0][3]) if i != op[1]])
+                    if ns1 != want:
+                        res.violation('C15.edit-effect', 'delns|mapping-is-not-the-one-of-the-remaining-rules', case, {'deleted': list(gone), 'mapping': want}, ns1, size=size)
     for which, s in (('A', a), ('B', b)):
         for clause, sig, exp, obs in invariant(res, s, which):
             if (which, clause, sig) in inherited:
